@@ -46,6 +46,37 @@ PROPS["C01"] = {
 }
 
 
+PROPS["C03"] = {
+    "level": "fault_enumeration",
+    "budget_s": {"quick": 80, "thorough": 2700},
+    "modes": [{"name": "engine", "runs": {"quick": 5000, "thorough": 120000}, "chunk": 250},
+              {"name": "batch", "runs": {"quick": 1500, "thorough": 40000}, "chunk": 250}],
+    "rule": ("one run = one generated case as in C01 (limits non-binding, so that the fault-free answer is one value) executed fault-free under tape sigma (N storage calls, decision D), "
+             "then re-executed under the same sigma with ONE fault at storage call k for every k<=N (N<=12 quick / 40 thorough; otherwise a tape-chosen sample of that many positions) x kinds {transient, persistent, ctx}. "
+             "mode engine: CheckRelationTuple; mode batch: BatchCheck of the duplicated query (every entry checked). Oracle: result carries an error or equals D; never allowed when D=denied; an entry with an error never says allowed. "
+             "non-trivial = fault-free run issues >=2 storage calls; distinct = distinct hash of (config, tuples, query). exhaustive over k per case when N<=limit, cases sampled."),
+    "probes": ["fault_transient", "fault_persistent", "fault_ctx", "outcome_error", "outcome_same", "base_allowed", "base_denied", "probe_denied_with_negation", "cases_all_positions"],
+    "real": REAL_E, "stub": STUB_E + ["storage failures: injected at the relationtuple.Manager / Traverser seam (L1); the SQL-driver seam (L2) variant is a separate mode"],
+    "fault_kinds": {"transient": "k-th storage call returns an error instead of calling through", "persistent": "k-th and every later call fail", "ctx": "request context cancelled at the k-th call, which returns context.Canceled"},
+    "assumptions": ["fault-free answer of the same schedule is the reference (property statement)", "limits non-binding by R1's criterion", "faults are fail-stop at the storage API"],
+}
+
+PROPS["C15"] = {
+    "level": "fault_enumeration",
+    "budget_s": {"quick": 80, "thorough": 2700},
+    "modes": [{"name": "", "runs": {"quick": 6000, "thorough": 150000}, "chunk": 250}],
+    "rule": ("one run = one generated case with recursion allowed (self/mutual recursive permissions through ||, && and !, expansion cycles, parent cycles under traverse, nodes wider than the width limit), "
+             "max_read_depth 1..5, max_read_width in {1,2,3,5,100}; executed (a) fault-free, (b) with the request context cancelled before start and after the j-th storage call for every j<=N (N<=10 quick / 40 thorough, else sampled), "
+             "(c) with a transient / persistent storage failure at every such k. Oracles: the call returns (nothing parked + live context + not returned = hang); storage calls <= ((f+1)(|rw|+2))^(d+1); "
+             "after cancellation the call returns with no further storage call released and zero simulated time; after return + context release the bubble drains (synctest deadlock detection = goroutine leak, classified by blocked frame); worker process survives. "
+             "non-trivial = reference derivation touches >=2 hops/rewrite edges; distinct = hash of (config, tuples, query, depth, width)."),
+    "probes": ["fault_cancel", "fault_transient", "fault_persistent", "probe_rewrite_cycle", "probe_wider_than_limit", "probe_drained_after_return"],
+    "real": REAL_E, "stub": STUB_E,
+    "fault_kinds": {"cancel": "request context cancelled between two storage calls", "transient": "k-th storage call fails", "persistent": "k-th and all later storage calls fail"},
+    "assumptions": ["the bound B is deliberately loose: it catches unbounded growth, not constant factors", "when a result and the cancellation are ready in the same quiescence round, either outcome is accepted (Go's select is not seedable)"],
+}
+
+
 def evidence(prop, spec, tier, seed, records, deaths, unfinished, planned, wall_s, sim_wall_s, build_s, nworkers, n_new, known_hits):
     runs = 0
     execs = 0
